@@ -8,6 +8,7 @@ import (
 	"regexp"
 	"strconv"
 	"strings"
+	"time"
 
 	jschema "github.com/jsightapi/jsight-schema-go-library"
 	"github.com/jsightapi/jsight-schema-go-library/notations/jschema/verifx"
@@ -378,6 +379,26 @@ func omapApply(m omapAdapter, op string) (res string) {
 
 func init() {
 	commands["omap"] = func(args []string, line string) string {
+		// a case that does not come back (a lock that is never released) must not hang the whole run
+		if omapHangs >= 3 {
+			return "HANG-SKIPPED#" // three cases already hung in this process: the rest is not run
+		}
+		done := make(chan string, 1)
+		go func() { done <- omapCase(args, line) }()
+		select {
+		case r := <-done:
+			return r
+		case <-time.After(2 * time.Second):
+			omapHangs++
+			return "HANG#"
+		}
+	}
+}
+
+var omapHangs int
+
+func omapCase(args []string, line string) string {
+	{
 		kind := "ast"
 		if len(args) > 0 {
 			kind = args[0]
